@@ -386,9 +386,21 @@ func r12_4(c *Ctx) {
 		c.anchor("validator call / Connection.read call in doConnect")
 		return
 	}
+	// the third parameter is the reset function (a bound method value) or the controller itself
+	isCtrl := typeIs(setRetry.Type(), "sse", "backoffController")
 	isReset := func(in ssa.Instruction) bool {
 		call, ok := in.(*ssa.Call)
-		if !ok || call.Call.Value != ssa.Value(setRetry) || len(call.Call.Args) != 1 {
+		if !ok {
+			return false
+		}
+		if isCtrl {
+			if mc, ok := isModCall(call, "(*backoffController).reset"); !ok || len(mc.Call.Args) != 2 || !carriesOnly(mc.Call.Args[0], setRetry) {
+				return false
+			}
+			k, isC := constInt(call.Call.Args[1])
+			return isC && k == 0
+		}
+		if !carriesOnly(call.Call.Value, setRetry) || len(call.Call.Args) != 1 {
 			return false
 		}
 		k, isC := constInt(call.Call.Args[0])
@@ -406,6 +418,9 @@ func r12_4(c *Ctx) {
 				good = true
 			}
 		}
+	}
+	if isCtrl && (arg == cp.next.Call.Args[0] || sameValue(arg, cp.next.Call.Args[0])) {
+		good = true
 	}
 	c.check(good, fnLabel(cp.fn)+":setRetry-binding", P.ipos(cp.doConnect), "doConnect's setRetry is the reset method of the controller next() is invoked on",
 		"doConnect's setRetry is not bound to the reset method of the controller whose next() schedules the retries")
